@@ -56,6 +56,9 @@ func (c *cancelCtx) cancelQuiet(err error, fromParent bool) {
 		return
 	}
 	c.err = err
+	if x := sched.Cur(); x != nil {
+		x.TouchW(c)
+	}
 	kids := c.children
 	c.children = nil
 	if c.env != nil {
